@@ -72,7 +72,7 @@ def ecu_word_ok(fmt, word):
     """Kept out of the generated stream for now: the XLS reader of the unchanged code finds its columns by the heading text, and an ECU
     column headed exactly `ID` or containing `Byteorder` is taken for that column (no frame is read / ValueError; layouts and receivers
     change).  Reported as a finding of the strengthening round; every other word goes to every format."""
-    return not (fmt == "xls" and (word == "ID" or "Byteorder" in word))
+    return True          # (the XLS reader took an ECU column headed `ID` or `Byteorder...` for that column: repaired, see known_findings.json C06-xls-ecu-named-like-heading)
 
 
 def signal_word_ok(fmt, wn, rich, word):
@@ -80,7 +80,7 @@ def signal_word_ok(fmt, wn, rich, word):
     `Unit` or `Semantics` (/DataType/Unit, /DataType/Semantics) comes back with factor 1, offset 0 and without its value table.  The bits
     are kept, so the layout stream (C06) has these names; the value stream (C07, `rich`) does not.  Reported as a finding of the
     strengthening round."""
-    return not (rich and fmt == "arxml" and wn == "3.2.3" and word in ("Unit", "Semantics"))
+    return True          # (ARXML 3.2.3: see the open finding C07-arxml3-signal-named-like-package, recognised by c07.classify)
 
 
 def keyword_names(rng, desc, fmt, wn="lsb", rich=False):
@@ -306,6 +306,9 @@ def classify(case, impl, spec):
     c = case["c"]
     if c["fmt"] == "arxml" and c.get("wn") == "3.2.3" and spec and re.search(r"signedness|float type|unit of ", spec):
         return "C07-arxml3-type-unit"
+    if c["fmt"] == "arxml" and c.get("wn") == "3.2.3" and spec and re.search(r"^fail: (factor|offset|value table|minimum|maximum) of (Unit|Semantics) ", spec):
+        # the AUTOSAR 3 writer names the data type of a signal after the signal, in the package that also holds the sub-packages Unit and Semantics
+        return "C07-arxml3-signal-named-like-package"
     if case["op"] == "frame" and c["fmt"] == "sym" and spec and spec.startswith("fail: value table of "):
         name = spec[len("fail: value table of "):].split(" ")[0]
         tables = [json.dumps(s["values"], sort_keys=True) for f in c["m"]["frames"] for s in f["signals"] if s["name"] == name and s["values"]]
